@@ -224,6 +224,7 @@ structure RE where
   e : Rat
   /-- set when a divisor's error radius reaches its magnitude: no finite bound -/
   bad : Bool := false
+deriving DecidableEq
 
 namespace RE
 
@@ -234,9 +235,26 @@ def abs (x : Rat) : Rat := if x < 0 then -x else x
 
 def exact (q : Rat) : RE := { v := q, e := 0 }
 
+/-- an upper bound of `x ≥ 0` with a ~40-bit numerator and a power-of-two denominator (keeps the
+error component small; rounding *up* keeps it a bound) -/
+def roundUp (x : Rat) : Rat :=
+  if x.num ≤ 0 then 0 else
+  let ln := x.num.natAbs.log2
+  let ld := x.den.log2
+  -- x ≈ 2^(ln-ld); keep 40 bits: scale by 2^sh with sh = 40 + ld - ln
+  if 40 + ld ≥ ln then
+    let sh := 40 + ld - ln
+    let m := (x.num.natAbs * 2 ^ sh) / x.den + 1
+    mkRat m (2 ^ sh)
+  else
+    let sh := ln - (40 + ld)
+    let m := x.num.natAbs / (x.den * 2 ^ sh) + 1
+    ((m * 2 ^ sh : Nat) : Rat)
+
 /-- one rounded operation whose exact-operand result is `v` and whose propagated input error is `pe` -/
 def rnd (v pe : Rat) (bad : Bool) : RE :=
-  { v := v, e := pe + reU * (abs v + pe) + (if v == 0 && pe == 0 then 0 else reEta), bad := bad }
+  if v == 0 && pe == 0 then { v := 0, e := 0, bad := bad }
+  else { v := v, e := roundUp (pe + reU * (abs v + pe) + reEta), bad := bad }
 
 instance : Zero RE := ⟨exact 0⟩
 instance : One RE := ⟨exact 1⟩
